@@ -230,6 +230,8 @@ def gen_scenario(seed, profile="general"):
         events = []
         table = None
         t = 1.0
+    if profile == "timing" and random.Random((seed * 69069) ^ 0x2E20).random() < 0.15:
+        cfg["retry_interval"] = 0.0  # (own stream) "retry at once" is a configuration like any other
     return dict(seed=seed, profile=profile, brokers=brokers, topics=topics, cfg=cfg, sends=sends, stop=stop,
                 faults=faults, events=events, version_table=table,
                 latency=0.0 if profile in ("timing", "batch", "latecancel") else rng.choice((0.0, 0.002, 0.03)),
